@@ -325,6 +325,12 @@ def run(ctx):
     ctx.coverage["cancelled_sender_cases"] = 40
     if pc:
         ctx.violation(ctx.write_replay("cancelled_sender.txt", "\n".join(pc[:12]) + "\n"), pc[0])
+    from props.c04 import probe_orphan_sibling
+    ncases, of = safe_probe(probe_orphan_sibling, f"{ctx.seed}:c06", 80 if ctx.tier == "quick" else 1500, pair=True)
+    ctx.coverage["orphan_sibling_cases"] = ncases
+    if of:
+        # (a sibling that is still cleaning up when `send()` reports the failure overlaps with the next event's callbacks)
+        ctx.violation(ctx.write_replay("orphan_sibling.txt", "\n".join(of[:12]) + "\n"), of[0][:200])
     ncases, pf = safe_probe(probe_detached_sends, pair=True)
     ctx.coverage["detached_send_cases"] = ncases
     if pf:
